@@ -99,7 +99,10 @@ def run(v):
                 "with os.Chtimes before every sync (older / newer than the interval). Per point one history: either "
                 "write bursts (1..5 transactions of 1..4 frames, sometimes around MinCheckpointPageN / TruncatePageN, up "
                 "to 1200 frames) interleaved with DB.Sync and an occasional process restart, then k in 1..30 idle syncs; "
-                "or the same with a long application reader pinned (then released, k more idle syncs); or calls of the "
+                "or the same with a long application reader pinned (then released, k more idle syncs); or write transactions "
+                "on a 2-page-cache connection that spill 8..48 pages of uncommitted frames (valid salts/checksums, no "
+                "commit record) behind a committed transaction - rolled back / synced while still open and committed "
+                "later / either one followed by an explicit DB.Checkpoint(PASSIVE|TRUNCATE) - then k idle syncs; or calls of the "
                 "real checkpointIfNeeded (hook) with chosen flags and boundary sizes in four environments (free, reader "
                 "pinned, application holds the write lock, checkpoint lock held). Entries: policy_sync (whole Sync vs the "
                 "abstract machine: frames in the live generation counted by an independent -wal decoder, L0 files "
@@ -159,6 +162,15 @@ def run(v):
             v.violation("C13/wal-not-bounded", "after a successful Sync with no application transaction open the live WAL "
                         "generation holds at least min(MinCheckpointPageN, TruncatePageN) + 1 frames (%d syncs). "
                         "[Min;Trunc;b;frames] = %s" % (len(l), short(m)), rep(m, entry), True)
+            oracle_found = True
+        elif entry == "policy_idle_ok" and [x for x in l if _tag(x, 8) == 1]:
+            ls = [x for x in l if _tag(x, 8) == 1]
+            m = min(ls, key=lambda x: len(x["case"]))
+            v.violation("C13/idle-not-silent-after-uncommitted-wal-frames",
+                        "after a write transaction spilled uncommitted frames into the WAL (rolled back, or committed "
+                        "later) idle syncs kept creating L0 files: more than (pending chunks + 1) new files, or a file "
+                        "after a sync that created none (%d idle phases after a spill, %d in all). "
+                        "[Min;Trunc;b;MaxSyncWALBytes;pending;L0 counts] = %s" % (len(ls), len(l), short(m)), rep(m, entry), True)
             oracle_found = True
         elif entry == "policy_idle_ok":
             v.violation("C13/idle-not-silent", "idle syncs kept creating L0 files: more than (pending chunks + 1) new files, "
